@@ -1,6 +1,7 @@
 SPECIFICATION TraceSpec
 CONSTANTS
   MaxParts = 2
+  PartEnds = {1}
   DevTornTailFailsGet = TRUE
   DevTimescaleZeroExits = FALSE
   DevNilTrafBoxExits = FALSE
